@@ -218,6 +218,14 @@ def tv(t: Term, known: dict[Term, bool]) -> bool | None:
                 return False
             if other[0] == "fresh" and str(other[2]).rsplit(".", 1)[-1][:1].isupper():
                 return False  # the result of a constructor call (CapWords callee) is an object, never None
+    if tag == "bin" and t[1] == "Add":
+        # sequence concatenation (or a sum of sizes): non-empty as soon as one operand is, empty only if both are
+        va, vb = tv(t[2], known), tv(t[3], known)
+        if va is True or vb is True:
+            return True
+        if va is False and vb is False:
+            return False
+        return known.get(t)
     if t in known:
         return known[t]
     if tag in ("tuple", "list", "set") and len(t) > 1 and not any(isinstance(x, tuple) and x and x[0] == "star" for x in t[1:]):
@@ -240,6 +248,8 @@ def atoms_of(t: Term) -> set[Term]:
         return out
     if tag == "cmp" and t[1] in ("isnot", "ne", "notin"):
         return {("cmp", {"isnot": "is", "ne": "eq", "notin": "in"}[t[1]], t[2], t[3])}
+    if tag == "bin" and t[1] == "Add":
+        return atoms_of(t[2]) | atoms_of(t[3])
     return {t}
 
 
